@@ -1522,7 +1522,7 @@ pub fn main(args: &[String]) {
         }
     }
     // mutants
-    let nmut = if thorough { 200000 } else { 3000 };
+    let nmut = if thorough { 60000 } else { 3000 };
     let mut mrng = SplitMix64(seed ^ 0xA0761D6478BD642F);
     // all token-boundary truncations of a few small documents
     let mut small: Vec<&Vec<u8>> = valid_docs.iter().filter(|d| d.len() < 1200).collect();
